@@ -1,5 +1,5 @@
 (* GENERATED on every run by harness/C11.py translate() with translate/pypdata2coq.py from
-   /tmp/tie-pdata-wt/psiaudio/pipeline.py - do not edit.  Vocabulary: coq/PData/TieLib.v.  Tie theorems: coq/PData/ProofsTie.v. *)
+   /repo/psiaudio/pipeline.py - do not edit.  Vocabulary: coq/PData/TieLib.v.  Tie theorems: coq/PData/ProofsTie.v. *)
 From PV Require Import PData.TieLib.
 Open Scope Z_scope.
 
@@ -75,7 +75,7 @@ let norm_index' := (norm_index' ++ [pfull]) in
 GOk norm_index') norm_index') (fun norm_index' =>
 GOk (PTuple norm_index')))))))))).
 
-(* pipeline.PipelineData.__getitem__, line 136 *)
+(* pipeline.PipelineData.__getitem__, line 134 *)
 Definition gen_getitem (self' : pd) (s' : pyval) : gres pyobj :=
 gbind (np_super_getitem self' s') (fun obj' =>
 if (isinst_PipelineData s')
